@@ -143,3 +143,37 @@ def random_corpus(seed, count, prefix='R', **kw):
         out.append(random_definition(rng, '%s%d' % (prefix, i), forced_accept=forced,
                                      looks=rng.random() < 0.6, bytes_mode=kw.get('bytes_mode', False) or rng.random() < 0.1))
     return out
+
+
+def cross_corpus():
+    """Deterministic cross product of the attribute forms: kind x literal kind x source mode x named arguments x
+    pattern content.  The checks that read the graph-level corpora judge every member generically (K4 leaf language,
+    C09 priorities from the attribute text, C08 ties from independently scanned priorities, UTF-8 certificates,
+    empty-match rule, emitted-program tie), so no expectation is attached here."""
+    def rs(x, isb):
+        esc = ''.join(('\\\\' if ch == '\\' else '\\"' if ch == '"' else ch) for ch in x)
+        return ('b"%s"' if isb else '"%s"') % esc
+    toks = ['ab', 'if', 'K', '=>', 'a.b', '<<', '\u00e9t\u00e9', '\u01c5']
+    regs = ['[a-c]+x', 'k[a-z]?', '\u00e9+', '[0-_]+', 'a{2,3}', 'x$', 'a(?-u:\\b)', '[^a-y]z', '(?:ab|cd)+', '[0-9]{2}', '.x', 'a\\x41']
+    argsets = [[], ['priority = 3'], ['ignore(case)'], ['priority = 3', 'ignore(case)'], ['priority = 30']]
+    out = []; k = 0
+    for bmode in (False, True):
+        hdr = '#[logos(utf8 = false)] ' if bmode else ''
+        for isb in (False, True):
+            fill = '#[token(%s)] Z' % rs('~', isb)
+            for t in toks:
+                if isb and any(ord(ch) > 127 for ch in t):
+                    continue
+                for args in argsets:
+                    a = ''.join(', ' + x for x in args)
+                    out.append('#[derive(Logos)] %senum X%d { #[token(%s%s)] A, #[regex(%s)] W, %s }' % (hdr, k, rs(t, isb), a, rs('[a-z=<>.]+', isb), fill)); k += 1
+            for r in regs:
+                if isb and any(ord(ch) > 127 for ch in r):
+                    continue
+                for args in argsets:
+                    a = ''.join(', ' + x for x in args)
+                    out.append('#[derive(Logos)] %senum X%d { #[regex(%s%s)] A, %s }' % (hdr, k, rs(r, isb), a, fill)); k += 1
+                    if args in ([], ['priority = 3'], ['ignore(case)']):
+                        out.append('#[derive(Logos)] %s#[logos(skip(%s%s))] enum X%d { %s }' % (hdr, rs(r, isb), a, k, fill)); k += 1
+                out.append('#[derive(Logos)] %s#[logos(skip %s)] enum X%d { %s }' % (hdr, rs(r, isb), k, fill)); k += 1
+    return out
